@@ -143,6 +143,7 @@ Proof.
   destruct (is_avc_key_seq_header m); [intros H; injection H as <- <-; rewrite app_nil_r; now apply (batched_ext s)|].
   destruct (is_hevc_key_seq_header m).
   { destruct (is_ext_header m); intros H; injection H as <- <-; rewrite app_nil_r; now apply (batched_ext s). }
+  destruct (enhanced_too_short m); [intros H; injection H as <- <-; now rewrite app_nil_r|].
   destruct (iterate_nalu_avcc _) as [nals [e|]]; [intros H; injection H as <- <-; now rewrite app_nil_r|].
   destruct (video_loop _ _ _ _ _ _ _ _ _) as [cache [[|b out]|]];
     try (intros H; injection H as <- <-; rewrite app_nil_r; now apply (batched_ext s)).
